@@ -782,6 +782,11 @@ class Interp:
                 return a > b
             if isinstance(op, ast.GtE):
                 return a >= b
+            if isinstance(op, (ast.In, ast.NotIn)) and isinstance(b, (list, tuple)) and \
+                    (isinstance(a, Record) or any(isinstance(x, Record) for x in b)):
+                # membership uses == on the elements: abstract objects go through their class's __eq__
+                found = any(x is a or self.truth(self.cmp(ast.Eq(), x, a)) for x in b)
+                return found if isinstance(op, ast.In) else not found
             if isinstance(op, ast.In):
                 return a in b
             if isinstance(op, ast.NotIn):
@@ -837,7 +842,14 @@ class Interp:
                 if v.format_spec is not None:
                     spec = self.e_JoinedStr(v.format_spec, env)
                     if spec:
-                        raise AnalysisError(f"{self.name}: f-string format spec {spec!r}")
+                        # format(value, spec) as Python does it for the builtin scalars (the spec may not fit the type)
+                        target = s if v.conversion in (114, 115) else x
+                        if isinstance(target, (Record, ClassRef, ModuleRef)):
+                            raise AnalysisError(f"{self.name}: f-string format spec {spec!r} on an abstract object")
+                        try:
+                            s = format(target, spec)
+                        except (TypeError, ValueError) as e:
+                            raise Raised(type(e).__name__, e.args)
                 out.append(s)
         return "".join(out)
 
